@@ -119,6 +119,6 @@ Proof.
   intros P c x c' I H. unfold step_start_ctx in H.
   destruct (p_kind P x); try discriminate.
   destruct (cancelled c x); try discriminate.
-  destruct (spc c x) eqn:Es; inv_some.
-  all: unfold start_reject, release_gate; prep; fin; sat I.
+  destruct (p_relfix P); destruct (spc c x) eqn:Es; inv_some.
+  all: unfold start_reject, start_reject_if, release_gate; prep; fin; sat I.
 Qed.
